@@ -21,7 +21,7 @@ PROP = {
             "evict/remove/clear/drain/set_capacity), op sequences on a real Pager over a scratch file (`pgr`, capacity 1..64, page "
             "4-64 KiB: allocate/read/write/pin/unpin/flush/reopen + raw reads of the file), DBConfig::new/builder/page-zero header "
             "(`cfg`), and the configuration grids through the public SQL API: `grid` (own workload of bulk inserts up to 1 200 rows, rows up "
-            "to 38 KB, updates, deletes, selects, a UNIQUE table, checkpoints: 8 workloads x 12 configurations), `sqlgrid` (scripts of the "
+            "to 38 KB, updates, deletes, selects, a UNIQUE table, checkpoints: 8 workloads x 12 configurations; and 2 workloads x 8 configurations with side tables that come and go — CREATE, fill, DROP, VACUUM, CREATE again on a recycled root that stays empty while hundreds of unrelated inserts turn the small caches over, first rows late), `sqlgrid` (scripts of the "
             "`sql` engine's generator — joins, aggregates, ORDER BY/LIMIT, DML — 24 scripts x 8 configurations, half of them as generated and "
             "answered by the logical model, half on tables blown up 10-60 times) and `histgrid` (histories of the `hist` engine's generator — "
             "interleaved sessions, commits, rollbacks — 30 x 6 configurations); configurations: page 4-64 KiB, cache 4-10 000 pages, pool 1/2/8, "
